@@ -12,7 +12,7 @@ Faults : ONE CASE = ONE CONVERSATION x ALL ITS FAULT PLANS.  `prop` first runs t
              "pairs"    every single and every unordered pair of call sites                 (thorough tier, some v1 quick cases)
              [[site, ...], ...]   explicit plans (replay files of single plans)
          so the plan set is a pure function of the case (replays reproduce) and nothing is sampled.  The fault is an
-         `InjectedFault(RuntimeError)` raised by the fake action through the harness hook `Session.should_fail` (overridden in
+         `InjectedFault(RuntimeError)` (or, per case, an exception with an empty message, asyncio.TimeoutError, AssertionError, KeyError, a multi-line ValueError, OSError) raised by the fake action through the harness hook `Session.should_fail` (overridden in
          `FaultSession` so that a site is addressed relative to its turn: an earlier fault that shortens a rail chain does not
          shift the address of a later site).  Only registered custom actions fail; the LLM never does (excluded by the statement).
 Oracle : per plan, on the value returned by `generate`, the action trace and the scripted LLM's call log:
@@ -36,6 +36,7 @@ Not asserted (DESIGN 4/C03 S): the reply of a turn whose dialog / retrieval acti
          nothing, v1 answers with the internal-error message); which later rails still run inside the faulted turn; v2
          fail-closed for rails that are not of the library convention `if not $allowed` (not generated).
 """
+import asyncio
 import itertools
 
 from hypothesis import strategies as st
@@ -81,6 +82,21 @@ def budget(tier):
 # fault injection: sites are addressed relative to their turn
 
 
+def _multiline_error():
+    return ValueError("first line\nsecond line {{ x }} $y\n")
+
+
+# what the failing custom action raises: "for all exceptions", not only ones that carry a one-line message
+EXC_KINDS = {
+    "empty": RuntimeError,  # str(e) == ""
+    "timeout": asyncio.TimeoutError,  # what asyncio.wait_for raises around a slow service; empty message too
+    "assert": AssertionError,
+    "key": lambda: KeyError("missing"),
+    "multiline": _multiline_error,
+    "oserror": lambda: OSError(5, "Input/output error"),
+}
+
+
 class FaultSession(Session):
     """case["plan"] = [[action_name, turn, j], ...]: the j-th invocation of the action within that turn raises."""
 
@@ -93,11 +109,17 @@ class FaultSession(Session):
         turn = entry["turn"]
         j = sum(1 for e in self.trace if e.get("action") == action_name and e["turn"] == turn) - 1
         entry["j"] = j
-        return (action_name, turn, j) in self.plan
+        if (action_name, turn, j) not in self.plan:
+            return False
+        kind = self.case.get("exc", "message")
+        if kind == "message":
+            return True  # fakes raises InjectedFault("VF-FAULT ...")
+        entry["verdict"] = "raise"
+        raise EXC_KINDS[kind]()
 
 
 def _sub(case, plan):
-    return {"config": case["config"], "turns": case["turns"], "api": case.get("api", "sync"), "plan": [list(s) for s in plan]}
+    return {"config": case["config"], "turns": case["turns"], "api": case.get("api", "sync"), "plan": [list(s) for s in plan], "exc": case.get("exc", "message")}
 
 
 def _run(case, plan, fresh=False, dry=None):
@@ -195,7 +217,8 @@ def _case(draw, tier):
         plans = "pairs"
     else:
         plans = draw(st.sampled_from(["singles"] * 5 + ["pairs"])) if v == 1 else "singles"
-    return {"config": cfg, "turns": turns, "api": draw(st.sampled_from(["sync", "sync", "async"])), "plans": plans}
+    return {"config": cfg, "turns": turns, "api": draw(st.sampled_from(["sync", "sync", "async"])), "plans": plans,
+            "exc": draw(st.sampled_from(["message", "message", "message"] + sorted(EXC_KINDS)))}
 
 
 def strategy(tier):
@@ -455,6 +478,7 @@ def prop(case):
     labels.add("plans=" + (case.get("plans", "singles") if isinstance(case.get("plans", "singles"), str) else "explicit"))
     if cfg["exc"]:
         labels.add("rails-exceptions")
+    labels.add("raises=" + case.get("exc", "message"))
     if v == 2:
         labels.add("v2-" + cfg.get("style", "config"))
     if cfg.get("ret"):
